@@ -511,3 +511,54 @@ def try_operand(e):
             return c['ch'][1]
         return c
     return None
+
+
+# ------------------------------------------------------------ alpha renaming
+
+def alpha(e, names=None, prefix='x'):
+    """Copy of the tree with every local renamed by order of first occurrence
+    (patterns and paths), so two bodies that differ only in variable names render equal."""
+    names = {} if names is None else names
+
+    def nm(lid):
+        if lid not in names:
+            names[lid] = '%s%d' % (prefix, len(names))
+        return names[lid]
+
+    def pat(p):
+        if not isinstance(p, dict):
+            return p
+        q = dict(p)
+        if q.get('k') == 'Binding':
+            q['name'] = nm(q['local'])
+        if 'ch' in q:
+            q['ch'] = [pat(c) for c in q['ch']]
+        if 'sub' in q:
+            q['sub'] = pat(q['sub'])
+        if 'fields' in q:
+            q['fields'] = [dict(f, pat=pat(f['pat'])) for f in q['fields']]
+        return q
+
+    def rec(x):
+        if isinstance(x, list):
+            return [rec(y) for y in x]
+        if not isinstance(x, dict):
+            return x
+        q = {}
+        # patterns first (binding order = textual order)
+        for key, v in x.items():
+            if key == 'pat':
+                q[key] = pat(v)
+            elif key == 'params':
+                q[key] = [pat(p) for p in v]
+            elif key in ('captures', 'targs', 'adj'):
+                q[key] = v
+            elif isinstance(v, (dict, list)):
+                q[key] = rec(v)
+            else:
+                q[key] = v
+        if q.get('k') == 'Path' and q.get('res') == 'local':
+            q['name'] = nm(q['local'])
+        return q
+
+    return rec(e)
